@@ -52,6 +52,8 @@ type debSUT struct {
 	t0       time.Time // start of the case (monotonic); trace times are microseconds since then
 	trace    []string  // observed events in the order they were logged (under mu)
 	traceOut *wire.Out // where `end` writes the trace line (exec only)
+	floodExtra int     // copies a `flood` sent beyond its count (not part of the compared numbers)
+	noMaxPush  bool    // a flood ran out of patience without any push being entered
 }
 
 // viewCanon prints a request the way the Lean driver prints a model value (showViewCanon).
@@ -255,6 +257,47 @@ func (s *debSUT) finish() debResult {
 	return res
 }
 
+// offer hands one request to the loop (unbuffered channel: returns when the loop has taken it).
+func (s *debSUT) offer(i int, r *model.PushRequest) {
+	s.mu.Lock()
+	s.nsend++
+	// logged before the request is offered: a lower bound of the loop's lastConfigUpdateTime
+	s.trace = append(s.trace, fmt.Sprintf("S|%d|%d", i, s.micros()))
+	s.allSent.Merge(reqFacts(r))
+	if !s.isBypass(r) {
+		s.sends = append(s.sends, reqFacts(r))
+		s.sendPush = append(s.sendPush, r.Push)
+	}
+	s.mu.Unlock()
+	select {
+	case s.ch <- r:
+	case <-time.After(patience()):
+		degraded.Store(true)
+		s.stuck = true
+	}
+}
+
+// cloneReq: a fresh request with fresh maps saying the same (every ConfigUpdate call builds its own).
+func cloneReq(r *model.PushRequest) *model.PushRequest {
+	c := &model.PushRequest{Push: r.Push, Start: r.Start, Forced: r.Forced, Delta: r.Delta}
+	if r.ConfigsUpdated != nil {
+		c.ConfigsUpdated = r.ConfigsUpdated.Copy()
+	}
+	if r.AddressesUpdated != nil {
+		c.AddressesUpdated = r.AddressesUpdated.Copy()
+	}
+	if r.WaypointsUpdated != nil {
+		c.WaypointsUpdated = r.WaypointsUpdated.Copy()
+	}
+	if r.Reason != nil {
+		c.Reason = model.ReasonStats{}
+		for k, v := range r.Reason {
+			c.Reason[k] = v
+		}
+	}
+	return c
+}
+
 func (s *debSUT) apply(f []string) (out string) {
 	defer func() {
 		if r := recover(); r != nil {
@@ -280,22 +323,45 @@ func (s *debSUT) apply(f []string) (out string) {
 			return "bad-op"
 		}
 		s.start()
-		r := s.h.reqs[i]
-		s.mu.Lock()
-		s.nsend++
-		// logged before the request is offered: a lower bound of the loop's lastConfigUpdateTime
-		s.trace = append(s.trace, fmt.Sprintf("S|%d|%d", i, s.micros()))
-		s.allSent.Merge(reqFacts(r))
-		if !s.isBypass(r) {
-			s.sends = append(s.sends, reqFacts(r))
-			s.sendPush = append(s.sendPush, r.Push)
+		s.offer(i, s.h.reqs[i])
+		return "ok"
+	case "flood":
+		// flood <req> <n> <gap-ms>: n copies of a request, one every gap ms (gap < DebounceAfter): the quiet
+		// period never elapses, so the push has to come through debounceMax.  If no push has been entered
+		// by then the copies keep coming (uncounted) until one is, or patience runs out.
+		if len(f) != 4 {
+			return "bad-op"
 		}
+		i, ok := parseRef(f[1], len(s.h.reqs), -2)
+		n, err1 := strconv.Atoi(f[2])
+		gap, err2 := strconv.Atoi(f[3])
+		if !ok || i < 0 || err1 != nil || err2 != nil || n < 1 {
+			return "bad-op"
+		}
+		s.start()
+		s.mu.Lock()
+		before := len(s.pushes) + len(s.bypass)
+		held := s.hold // a held pushFn keeps the loop from entering another: nothing to expect from this flood
 		s.mu.Unlock()
-		select {
-		case s.ch <- r:
-		case <-time.After(patience()):
-			degraded.Store(true)
-			s.stuck = true
+		pushedSince := func() bool {
+			s.mu.Lock()
+			defer s.mu.Unlock()
+			return len(s.pushes)+len(s.bypass) > before
+		}
+		deadline := time.Now().Add(patience() / 3)
+		for k := 0; ; k++ {
+			if k >= n {
+				if held || pushedSince() {
+					break
+				}
+				if time.Now().After(deadline) {
+					s.noMaxPush = true
+					break
+				}
+				s.floodExtra++
+			}
+			s.offer(i, cloneReq(s.h.reqs[i]))
+			time.Sleep(time.Duration(gap) * time.Millisecond)
 		}
 		return "ok"
 	case "sleep":
@@ -339,7 +405,7 @@ func (s *debSUT) apply(f []string) (out string) {
 			v = "FAIL:" + c
 		}
 		return fmt.Sprintf("facts=%s events=%d sent=%d quiescent=%s single=%s batches=%s unmutated=%s verdict=%s",
-			wire.EncSet(sets.SortedList(r.facts)), r.events, r.sent, wire.B(r.quiescent), wire.B(r.single), wire.B(r.batches), wire.B(r.unmutated), v)
+			wire.EncSet(sets.SortedList(r.facts)), r.events-s.floodExtra, r.sent-int64(s.floodExtra), wire.B(r.quiescent), wire.B(r.single), wire.B(r.batches), wire.B(r.unmutated), v)
 	}
 	return s.mergeSUT.apply(f)
 }
@@ -349,6 +415,13 @@ func (s *debSUT) apply(f []string) (out string) {
 func genDebounceCase(r *wire.Rng, c int, out *wire.Out) {
 	after := 2 + r.Intn(6)
 	max := after*2 + r.Intn(20)
+	flood := r.Chance(1, 8)
+	if flood {
+		// a long quiet period and updates four to five times closer together than it: a sleep that overshoots
+		// (machine load) does not let the quiet period elapse by accident
+		after = 20 + r.Intn(16)
+		max = after*2 + r.Intn(30)
+	}
 	eds := !r.Chance(1, 4)
 	out.Line("case", strconv.Itoa(c), "debounce", strconv.Itoa(after), strconv.Itoa(max), wire.B(eds))
 	n := 1 + r.Intn(7)
@@ -388,6 +461,16 @@ func genDebounceCase(r *wire.Rng, c int, out *wire.Out) {
 			push = strconv.Itoa(1 + r.Intn(3))
 		}
 		out.Line("req", cfg, adr, wp, rsn, push, "0", "0", wire.B(r.Chance(1, 4)))
+	}
+	if flood {
+		// updates closer together than the quiet period for three times debounceMax: debounceMax has to push
+		gap := after/5 + 1
+		out.Line("flood", "0", strconv.Itoa(3*max/gap+1), strconv.Itoa(gap))
+		for i := 1; i < n; i++ {
+			out.Line("send", strconv.Itoa(i))
+		}
+		out.Line("end")
+		return
 	}
 	if n >= 2 && r.Chance(2, 5) {
 		// the overlap the property is about: updates arrive while a (held) push is running
@@ -482,6 +565,8 @@ func oracleDebounce(in, outp string) {
 // verdictOf evaluates the property clauses on what one real run was observed to do.
 func (s *debSUT) verdictOf(r debResult) (clause, detail string) {
 	switch {
+	case s.noMaxPush:
+		return "no-push-while-updates-keep-coming(debounceMax-not-honoured)", ""
 	case !r.quiescent:
 		return "accepted-update-never-pushed", fmt.Sprintf("updateSent=%d of %d events", r.sent, r.events)
 	case !r.facts.Equals(s.allSent):
